@@ -470,3 +470,117 @@ def mark_single_callers(rng, prog, p=0.3):
         if n == 1 and rng.random() < p:
             md["single"] = True
     return prog
+
+
+# ------------------------------------------------------------------------------------------------
+# condition() designs (C12)
+
+
+def _cond_callees(node):
+    out = set()
+    for br in node[1]["branches"]:
+        for k, n in br["body"]:
+            if k == "C":
+                out.add(n["m"])
+            elif k == "Cond":
+                out |= _cond_callees([k, n])
+    return out
+
+
+def _has_nested_priority(node):
+    for br in node[1]["branches"]:
+        for k, n in br["body"]:
+            if k == "Cond" and (n["priority"] or _has_nested_priority([k, n])):
+                return True
+    return False
+
+
+def generate_cond(rng, feat=None):
+    """One or two condition() blocks inside a transaction or a (single- or two-caller) method; branches
+    with overlapping conditions that share callees with each other and with outside transactions."""
+    g = Gen(rng, feat or {})
+    nm = rng.randint(1, 4)
+    methods = []
+    for i in range(nm):
+        iw = rng.choice([0, 3, 3])
+        md = {"id": f"m{i}", "iw": iw, "ow": rng.choice([0, 3]), "k": rng.getrandbits(4), "nonex": rng.random() < 0.15 and not iw,
+              "comb": None, "single": False, "val": None, "ready": g.inp() if rng.random() < 0.8 else None, "ret": None}
+        if iw and rng.random() < 0.3:
+            md["val"] = rng.choice([["ne", rng.getrandbits(iw)], ["bit0", rng.getrandbits(1)]])
+        methods.append(md)
+    g.methods = methods
+    g.mdef = {m["id"]: m for m in methods}
+    g.aliases = []
+    g.alias_of = {}
+    g.reach = {m["id"]: {m["id"]} for m in methods}
+    g.has_val = {m["id"]: bool(m.get("val")) for m in methods}
+    pool = [m["id"] for m in methods]
+    ncond = [0]
+
+    def block(depth, avoid):
+        ncond[0] += 1
+        cid = f"c{ncond[0]}"
+        nb = rng.randint(1, 4)
+        branches = []
+        for k in range(nb):
+            body = []
+            cands = [m for m in pool if m not in avoid]
+            for mid in rng.sample(cands, min(len(cands), rng.choice([0, 1, 1, 2]))):
+                body.append(g.call(mid, None))
+            if depth > 0 and rng.random() < 0.2:
+                used = {g._resolve(s["m"], []) for s in _sites(body)}
+                body.append(block(depth - 1, avoid | used))
+            branches.append({"bid": f"{cid}b{k}", "cond": g.inp(), "body": body})
+        if rng.random() < 0.4:
+            body = []
+            cands = [m for m in pool if m not in avoid]
+            for mid in rng.sample(cands, min(len(cands), rng.choice([0, 1]))):
+                body.append(g.call(mid, None))
+            branches.append({"bid": f"{cid}b{nb}", "cond": None, "body": body})
+        return ["Cond", {"cid": cid, "nonblocking": rng.random() < 0.4, "priority": rng.random() < 0.5, "branches": branches}]
+
+    own = [m for m in pool if rng.random() < 0.25]  # called by the enclosing body itself, outside the block
+    ebody = [g.call(mid, None) for mid in own]
+    first = block(1, set(own))
+    ebody.append(first)
+    if rng.random() < 0.2:
+        # a second block in the same body is parallel code: it must not reach the callees of the first.
+        # Two *prioritised* blocks in one body are not generated: their branch orders contradict each other in
+        # the merged transactions and elaboration fails with a priority cycle (observation recorded in DESIGN.md)
+        second = block(0, set(own) | _cond_callees(first))
+        if first[1]["priority"] or _has_nested_priority(first):
+            second[1]["priority"] = False
+        ebody.append(second)
+    rng.shuffle(ebody)
+    tree = [[], []]
+    for md in methods:
+        tree[rng.randrange(2)].append(["M", {"id": md["id"], "body": []}])
+    kind = rng.choice(["T", "T", "M1", "M2"])
+    if kind == "T":
+        tree[0].append(["T", {"id": "t0", "ready": g.inp() if rng.random() < 0.7 else None, "body": ebody}])
+    else:
+        emd = {"id": "e0", "iw": 0, "ow": 0, "k": 0, "nonex": False, "comb": None, "single": False, "val": None,
+               "ready": g.inp() if rng.random() < 0.5 else None, "ret": None}
+        methods.append(emd)
+        g.mdef["e0"] = emd
+        g.reach["e0"] = {"e0"}
+        g.has_val["e0"] = False
+        tree[0].append(["M", {"id": "e0", "body": ebody}])
+        for j in range(1 if kind == "M1" else 2):
+            tree[rng.randrange(2)].append(["T", {"id": f"t{j}", "ready": g.inp() if rng.random() < 0.8 else None,
+                                                 "body": [g.call("e0", None)]}])
+    for j in range(rng.choice([0, 1, 1, 2])):
+        k = rng.choice([1, 1, 2])
+        body = [g.call(mid, None) for mid in rng.sample(pool, min(len(pool), k))]
+        tree[rng.randrange(2)].append(["T", {"id": f"o{j}", "ready": g.inp() if rng.random() < 0.8 else None, "body": body}])
+    prog = {"inputs": g.inputs, "methods": methods, "aliases": [], "tree": tree, "relations": []}
+    fl = Analysis(prog).shape_flags()
+    if fl["cond_in_conditionally_called_method"] and fl["cond_branch_reaches_validate"] and rng.random() < (feat or {}).get("p_drop_f11", 0.85):
+        # known finding F11 (combinational loop): keep the shape at a low rate only
+        for nodes in tree:
+            for k, n in nodes:
+                if k == "T":
+                    for kk, c in n["body"]:
+                        if kk == "C" and c["m"] == "e0":
+                            c["en"] = None
+    return prog
